@@ -415,7 +415,6 @@ func checkC03(c *Ctx) {
 	if !c.Anchor("R3.1", "zapcore.Field / FieldType / Field.AddTo", field != nil && ftNamed != nil && addTo != nil) {
 		return
 	}
-	info := cpk.TypesInfo
 	sizes := cpk.TypesSizes
 	lits := collectFieldLits(c)
 	byType := map[string][]fieldLit{}
@@ -426,66 +425,49 @@ func checkC03(c *Ctx) {
 		}
 		byType[l.ftype.Name()] = append(byType[l.ftype.Name()], l)
 	}
-	sw := findSwitchOn(addTo, ".Type")
-	recvName := "f"
-	if addTo.Recv != nil && len(addTo.Recv.List) == 1 && len(addTo.Recv.List[0].Names) == 1 {
-		recvName = addTo.Recv.List[0].Names[0].Name
-	}
-	if sw == nil {
-		// the switch may have been split off into an unexported helper of AddTo
-		if sfn := c.Method(CorePath, "Field", "AddTo"); sfn != nil {
-			for _, h := range Region(sfn) {
-				fd, ok := h.Syntax().(*ast.FuncDecl)
-				if !ok || h == sfn || fd.Body == nil {
-					continue
-				}
-				if s2 := findSwitchOn(fd, ".Type"); s2 != nil {
-					sw = s2
-					if fd.Recv != nil && len(fd.Recv.List) == 1 && len(fd.Recv.List[0].Names) == 1 {
-						recvName = fd.Recv.List[0].Names[0].Name
-					}
-				}
-			}
-		}
-	}
-	if sw == nil {
-		c.Und("R3.1", "zapcore.Field.AddTo", "switch", addTo.Pos(), "no switch on f.Type")
+	addToFn := c.Method(CorePath, "Field", "AddTo")
+	if !c.Anchor("R3.1", "zapcore.Field.AddTo (two parameters)", addToFn != nil && len(addToFn.Params) == 2) {
 		return
 	}
-	arms := switchArms(info, sw)
-	armOf := map[string]addToArm{}
-	var def *addToArm
-	for i, a := range arms {
-		if a.isDef {
-			def = &arms[i]
-		}
-		for _, k := range a.consts {
-			armOf[k.Name()] = a
-		}
-	}
-	// exhaustiveness
+	// what AddTo does for each FieldType: by path exploration with f.Type fixed (c03arm.go)
+	armOf := map[string]*armInfo{}
+	used := map[int64]bool{}
 	for _, k := range c.ConstsOfType(CorePath, ftNamed) {
+		kv, _ := ConstObjInt(k)
+		used[kv] = true
 		if k.Name() == "UnknownType" {
 			continue
 		}
-		_, ok := armOf[k.Name()]
-		c.Check(ok, "R3.1", "zapcore.Field.AddTo", "arm/"+k.Name(), sw.Pos(), "FieldType %s has an AddTo arm", k.Name())
+		ai := c3ArmSSA(c, addToFn, kv)
+		if ai.trunc {
+			c.Und("R3.1", "zapcore.Field.AddTo", "arm/"+k.Name(), addTo.Pos(), "path exploration of AddTo for %s incomplete", k.Name())
+			continue
+		}
+		armOf[k.Name()] = ai
+		c.Check(!ai.panics, "R3.1", "zapcore.Field.AddTo", "arm/"+k.Name(), addTo.Pos(), "FieldType %s has an AddTo arm: no path for it reaches the unknown-type panic", k.Name())
 		if len(byType[k.Name()]) == 0 {
 			c.Bad("R3.1", "constructors", "literal/"+k.Name(), token.NoPos, "no constructor builds a Field of type %s", k.Name())
 		}
 	}
-	defPanics := false
-	if def != nil {
-		ast.Inspect(def.clause, func(n ast.Node) bool {
-			if ce, ok := n.(*ast.CallExpr); ok {
-				if id, ok := ce.Fun.(*ast.Ident); ok && id.Name == "panic" {
-					defPanics = true
-				}
-			}
-			return true
-		})
+	// a value that is no FieldType constant (and the explicit UnknownType) panics instead of being silently dropped
+	defPanics := true
+	unk := int64(0)
+	for used[unk] {
+		unk++
 	}
-	c.Check(defPanics, "R3.1", "zapcore.Field.AddTo", "default-panics", sw.Pos(), "an unknown FieldType panics instead of being silently dropped")
+	probes := []int64{unk}
+	for _, k := range c.ConstsOfType(CorePath, ftNamed) {
+		if kv, ok := ConstObjInt(k); ok && k.Name() == "UnknownType" {
+			probes = append(probes, kv)
+		}
+	}
+	for _, pv := range probes {
+		ai := c3ArmSSA(c, addToFn, pv)
+		if ai.trunc || ai.nopanic || !ai.panics {
+			defPanics = false
+		}
+	}
+	c.Check(defPanics, "R3.1", "zapcore.Field.AddTo", "default-panics", addTo.Pos(), "an unknown FieldType panics instead of being silently dropped (explored with f.Type = %v)", probes)
 
 	// per literal agreement
 	names := []string{}
@@ -498,42 +480,8 @@ func checkC03(c *Ctx) {
 		if !ok {
 			continue
 		}
-		// slots read by the arm, assertions made, encoder calls
-		read := map[string]bool{}
-		var asserts []types.Type
-		var encCalls []*ast.CallExpr
-		var scan func(nodes []ast.Stmt, rn string, depth int)
-		scan = func(nodes []ast.Stmt, rn string, depth int) {
-			for _, st := range nodes {
-				ast.Inspect(st, func(n ast.Node) bool {
-					switch x := n.(type) {
-					case *ast.SelectorExpr:
-						id, ok := x.X.(*ast.Ident)
-						if !ok || id.Name != rn || x.Sel.Name == "Key" || x.Sel.Name == "Type" {
-							break
-						}
-						// an unexported method of Field that unpacks on the arm's behalf: look into it
-						if mf, isFn := info.Uses[x.Sel].(*types.Func); isFn && depth < 3 {
-							if md, _ := c.DeclOf(CorePath, "Field", mf.Name()); md != nil && md.Body != nil && md.Recv != nil && len(md.Recv.List) == 1 && len(md.Recv.List[0].Names) == 1 {
-								scan(md.Body.List, md.Recv.List[0].Names[0].Name, depth+1)
-								break
-							}
-						}
-						read[x.Sel.Name] = true
-					case *ast.TypeAssertExpr:
-						if x.Type != nil {
-							asserts = append(asserts, info.TypeOf(x.Type))
-						}
-					case *ast.CallExpr:
-						if f := CalleeOf(info, x); f != nil {
-							encCalls = append(encCalls, x)
-						}
-					}
-					return true
-				})
-			}
-		}
-		scan(arm.clause.Body, recvName, 0)
+		asserts := arm.asserts
+		rd := arm.readList()
 		for li, l := range byType[tn] {
 			cname := l.pk.PkgPath + "." + l.fd.Name.Name
 			slot := tn
@@ -549,26 +497,21 @@ func checkC03(c *Ctx) {
 				}
 			}
 			sort.Strings(written)
-			var rd []string
-			for s := range read {
-				rd = append(rd, s)
-			}
-			sort.Strings(rd)
 			c.Check(strings.Join(written, ",") == strings.Join(rd, ","), "R3.1", cname, "slots/"+slot, l.lit.Pos(), "constructor writes slots {%s}; the AddTo arm for %s reads {%s}", strings.Join(written, ","), tn, strings.Join(rd, ","))
 			// the stored values are the parameter itself (not a reassigned/clamped copy): SSA provenance
 			c3Provenance(c, cname, slot, l)
 			// Integer slot chain
 			if e, ok := l.slots["Integer"]; ok {
-				c3IntegerChain(c, cname, slot, l, e, arm, info, linfo, sizes, encCalls)
+				c3IntegerChain(c, cname, slot, l, e, arm, linfo, sizes)
 			}
 			if e, ok := l.slots["String"]; ok {
 				pt := linfo.TypeOf(e)
 				_, leaf := exprChain(linfo, e)
 				isParam := isParamIdent(linfo, l.fd, leaf)
 				okEnc := false
-				for _, ec := range encCalls {
-					if f := CalleeOf(info, ec); f != nil && len(ec.Args) == 2 && types.ExprString(ec.Args[1]) == "f.String" {
-						q := f.Type().(*types.Signature).Params().At(1).Type()
+				for _, ec := range arm.calls {
+					if ec.fn != nil && ec.onEnc && len(ec.args) == 2 && ec.args[1].leaf == "String" && len(ec.args[1].ops) == 0 {
+						q := ec.fn.Type().(*types.Signature).Params().At(1).Type()
 						okEnc = types.Identical(q, pt)
 					}
 				}
@@ -593,15 +536,14 @@ func checkC03(c *Ctx) {
 			}
 		}
 		// encoder parameter type = asserted type (Interface arms)
-		for _, ec := range encCalls {
-			f := CalleeOf(info, ec)
-			if f == nil || len(ec.Args) != 2 {
+		for _, ec := range arm.calls {
+			if ec.fn == nil || !ec.onEnc || !isInvokeOnEnc(ec) || len(ec.args) != 2 {
 				continue
 			}
-			ops, leaf := exprChain(info, ec.Args[1])
-			if types.ExprString(leaf) == "f.Interface" && len(ops) == 1 && ops[0].kind == "assert" {
-				q := f.Type().(*types.Signature).Params().At(1).Type()
-				c.Check(types.Identical(q, ops[0].typ), "R3.1", "zapcore.Field.AddTo", "enc-param/"+tn, ec.Pos(), "%s takes %s, the arm passes f.Interface.(%s)", f.Name(), TypeName(q), TypeName(ops[0].typ))
+			ops, leaf := ec.args[1].ops, ec.args[1].leaf
+			if leaf == "Interface" && len(ops) == 1 && ops[0].kind == "assert" {
+				q := ec.fn.Type().(*types.Signature).Params().At(1).Type()
+				c.Check(types.Identical(q, ops[0].typ), "R3.1", "zapcore.Field.AddTo", "enc-param/"+tn, ec.pos, "%s takes %s, the arm passes f.Interface.(%s)", ec.fn.Name(), TypeName(q), TypeName(ops[0].typ))
 			}
 		}
 	}
@@ -680,6 +622,23 @@ func c3NilPlaceholder(c *Ctx) {
 	})
 }
 
+// isInvokeOnEnc: the call is a method of the encoder interface (not a helper that is merely handed the encoder).
+func isInvokeOnEnc(ec armCall) bool {
+	sig, ok := ec.fn.Type().(*types.Signature)
+	if !ok || sig.Recv() == nil {
+		return false
+	}
+	_, isIface := types.Unalias(sig.Recv().Type()).Underlying().(*types.Interface)
+	return isIface
+}
+
+func TypeNameOrEmpty(t types.Type) string {
+	if t == nil {
+		return ""
+	}
+	return "(" + TypeName(t) + ")"
+}
+
 func isParamIdent(info *types.Info, fd *ast.FuncDecl, e ast.Expr) bool {
 	id, ok := ast.Unparen(e).(*ast.Ident)
 	if !ok {
@@ -699,7 +658,7 @@ func isParamIdent(info *types.Info, fd *ast.FuncDecl, e ast.Expr) bool {
 	return false
 }
 
-func c3IntegerChain(c *Ctx, cname, slot string, l fieldLit, e ast.Expr, arm addToArm, info, linfo *types.Info, sizes types.Sizes, encCalls []*ast.CallExpr) {
+func c3IntegerChain(c *Ctx, cname, slot string, l fieldLit, e ast.Expr, arm *armInfo, linfo *types.Info, sizes types.Sizes) {
 	if l.ftype.Name() == "BoolType" {
 		return // decided on SSA by c3Bool
 	}
@@ -719,14 +678,12 @@ func c3IntegerChain(c *Ctx, cname, slot string, l fieldLit, e ast.Expr, arm addT
 	// unpack: the encoder call whose value argument is rooted at f.Integer
 	var uops []cop
 	var enc *types.Func
-	for _, ec := range encCalls {
-		f := CalleeOf(info, ec)
-		if f == nil || len(ec.Args) != 2 {
+	for _, ec := range arm.calls {
+		if ec.fn == nil || !ec.onEnc || len(ec.args) != 2 {
 			continue
 		}
-		o, lf := exprChain(info, ec.Args[1])
-		if types.ExprString(lf) == "f.Integer" {
-			uops, enc = reverseOps(o), f
+		if ec.args[1].leaf == "Integer" {
+			uops, enc = reverseOps(ec.args[1].ops), ec.fn
 		}
 	}
 	if enc == nil {
@@ -1590,82 +1547,61 @@ func c3FloatBits(c *Ctx, rule string) {
 	if !c.Anchor(rule, "zapcore.Field.AddTo", fn != nil && ftNamed != nil && len(fn.Params) == 2) {
 		return
 	}
-	rn := fn.Params[0].Name()
 	isFloat := func(t types.Type) bool {
 		b, ok := types.Unalias(t).Underlying().(*types.Basic)
 		return ok && b.Info()&types.IsFloat != 0
 	}
+	isInt := func(t types.Type) bool {
+		b, ok := types.Unalias(t).Underlying().(*types.Basic)
+		return ok && b.Info()&types.IsInteger != 0
+	}
+	sizes := c.Pkg(CorePath).TypesSizes
 	n := 0
 	for _, k := range c.ConstsOfType(CorePath, ftNamed) {
 		if k.Name() != "Float64Type" && k.Name() != "Float32Type" {
 			continue
 		}
 		kv, _ := ConstObjInt(k)
-		wantCall := map[string]string{"Float64Type": "math.Float64frombits", "Float32Type": "math.Float32frombits"}[k.Name()]
-		var chain func(st *ConcState, v ssa.Value, d int) string
-		chain = func(st *ConcState, v ssa.Value, d int) string {
-			if d > 10 {
-				return "…"
-			}
-			for i := 0; i < 12; i++ {
-				if ct, ok := v.(*ssa.ChangeType); ok {
-					v = ct.X
-					continue
-				}
-				nx := st.Step(v)
-				if nx == nil {
-					break
-				}
-				v = nx
-			}
-			switch x := v.(type) {
-			case *ssa.Convert:
-				in := chain(st, x.X, d+1)
-				if isFloat(x.Type()) && isFloat(x.X.Type()) {
-					return "floatconv(" + in + ")"
-				}
-				return "conv(" + in + ")"
-			case *ssa.Call:
-				if f := CalleeFunc(x); f != nil && len(x.Call.Args) == 1 {
-					return f.FullName() + "(" + chain(st, x.Call.Args[0], d+1) + ")"
-				}
-			case *ssa.UnOp, *ssa.Field:
-				ds := st.Desc(v)
-				if ds == rn+".Integer" {
-					return "Integer"
-				}
-				return ds
-			}
-			return st.Desc(v)
-		}
-		seqs, trunc := ConcPaths(fn, ConcCfg{
-			Conc: func(d string) (int64, bool) {
-				if d == rn+".Type" {
-					return kv, true
-				}
-				return 0, false
-			},
-			Event: func(in ssa.Instruction, st *ConcState) string {
-				x, ok := in.(*ssa.Call)
-				if !ok || !x.Call.IsInvoke() || !strings.HasPrefix(x.Call.Method.Name(), "Add") || len(x.Call.Args) != 2 {
-					return ""
-				}
-				return x.Call.Method.Name() + ":" + chain(st, x.Call.Args[1], 0)
-			},
-		})
-		if trunc || len(seqs) == 0 {
+		wantCall := map[string]string{"Float64Type": "Float64frombits", "Float32Type": "Float32frombits"}[k.Name()]
+		width := map[string]int64{"Float64Type": 8, "Float32Type": 4}[k.Name()]
+		ai := c3ArmSSA(c, fn, kv)
+		if ai.trunc {
 			c.Und(rule, fn.String(), "float-bits/"+k.Name(), fn.Pos(), "path exploration incomplete")
 			continue
 		}
 		n++
 		var bad []string
-		for _, sq := range seqs {
-			ok := strings.Contains(sq, wantCall+"(conv(Integer))") || strings.Contains(sq, wantCall+"(Integer)")
-			if !ok || strings.Contains(sq, "floatconv(") || strings.Contains(sq, " ; ") {
-				bad = append(bad, sq)
+		nEnc := 0
+		for _, ec := range ai.calls {
+			if !ec.onEnc {
+				continue
+			}
+			nEnc++
+			if len(ec.args) != 2 {
+				bad = append(bad, ec.name+": unexpected arity")
+				continue
+			}
+			a := ec.args[1]
+			// outermost first: the frombits call, then only integer conversions that keep all the bits, then the slot
+			ok := a.leaf == "Integer" && len(a.ops) >= 1 && a.ops[0].kind == "call" && a.ops[0].name == wantCall
+			var steps []string
+			for i, o := range a.ops {
+				steps = append(steps, o.kind+":"+o.name+TypeNameOrEmpty(o.typ))
+				if i == 0 {
+					continue
+				}
+				if o.kind != "conv" || !isInt(o.typ) || isFloat(o.typ) || sizes.Sizeof(o.typ) < width {
+					ok = false
+				}
+			}
+			if !ok {
+				bad = append(bad, ec.name+":"+strings.Join(steps, "←")+"←"+a.leaf)
 			}
 		}
-		c.Check(len(bad) == 0, rule, fn.String(), "float-bits/"+k.Name(), fn.Pos(), "for a %s field every path hands the encoder %s of the Integer slot, with no conversion between floating-point types on the way (bit patterns, not just values): %v", k.Name(), wantCall, bad)
+		if nEnc != 1 {
+			bad = append(bad, "expected exactly one encoder call, found "+itoa(nEnc))
+		}
+		c.Check(len(bad) == 0, rule, fn.String(), "float-bits/"+k.Name(), fn.Pos(), "for a %s field every path hands the encoder math.%s of the Integer slot, with only integer conversions that keep all %d bytes (no conversion between floating-point types) on the way: bit patterns, not just values: %v", k.Name(), wantCall, width, bad)
 	}
 	if n != 2 {
 		c.Bad(rule, fn.String(), "float-bits/count", fn.Pos(), "expected Float64Type and Float32Type, decided %d", n)
